@@ -98,6 +98,10 @@ func Server(xPub, yPriv, yPub, bPriv, bPub, id []byte, slow bool) Result {
 	return common(X25519(yPriv, xPub, slow), X25519(bPriv, xPub, slow), id, bPub, xPub, yPub)
 }
 
+// Forge computes the transcript hashes from caller-chosen DH outputs (used by
+// impostor scenarios, e.g. an AUTH that does not involve the identity key).
+func Forge(exp1, exp2, id, b, x, y []byte) Result { return common(exp1, exp2, id, b, x, y) }
+
 // HKDF is HKDF-SHA256 (RFC 5869) written out.
 func HKDF(salt, ikm, info []byte, n int) []byte {
 	prk := hm(salt, ikm)
